@@ -350,3 +350,47 @@ TRUSTED_BASE = [
     'Python harness: generators, implementation observers, canonicalisation, rendering of cases as Gallina terms (harness/*.py)',
     'no axioms: every property theorem prints "Closed under the global context"',
 ]
+
+
+def generic_run(mod, cases, seed=0, shard=400):
+    """Run every case on the implementation, evaluate the oracle, render (case, observation)
+    as a Gallina term and let Coq compare with the model.  `mod` provides run_impl(case),
+    oracle(case, obs, rng) -> [(msg, signature)], render(case, obs) -> term, nontrivial(case, obs),
+    IMPORTS, CHECK_FN, BAD_TERM (a term of the case type on which CHECK_FN is false),
+    optional stat_key(case, obs)."""
+    rng = random.Random(seed + 1)
+    obs, orc, terms, stats = [], [], [], {}
+    seen = set()
+    nontriv = 0
+    for i, c in enumerate(cases):
+        try:
+            ob = mod.run_impl(c)
+        except Exception as e:  # the implementation crashed where the model has an answer
+            ob = {'err': 'EOther:' + type(e).__name__, 'crash': repr(e)[:500]}
+        obs.append(ob)
+        key = mod.stat_key(c, ob) if hasattr(mod, 'stat_key') else c.get('kind', 'case')
+        stats[key] = stats.get(key, 0) + 1
+        try:
+            for msg, sig in mod.oracle(c, ob, rng):
+                orc.append((i, msg, sig))
+        except Exception as e:
+            orc.append((i, 'oracle crashed: %r' % e, 'oracle-crash'))
+        try:
+            t = mod.render(c, ob)
+        except Exception as e:
+            t = mod.BAD_TERM      # unrenderable observation: forces a disagreement
+            if isinstance(ob, dict):
+                ob['render_error'] = repr(e)[:300]
+        terms.append(t)
+        try:
+            nt = mod.nontrivial(c, ob)
+        except Exception:
+            nt = False
+        if t not in seen and nt:
+            seen.add(t)
+            nontriv += 1
+    bad, err = coq_check_cases(mod.__name__.split('.')[-1].upper(), mod.IMPORTS, mod.CHECK_FN,
+                               terms, shard=shard)
+    return {'observations': obs, 'oracle': orc, 'corr_bad': bad, 'corr_error': err,
+            'stats': stats, 'nontrivial': nontriv, 'terms': terms,
+            'samples': [{'case': cases[i], 'impl': obs[i]} for i in range(min(3, len(cases)))]}
